@@ -1,5 +1,5 @@
 (* Decoder semantics depends only on the members count and decode steps of each packet. *)
-From FP Require Import Validate EqvSoundDec.
+From FP Require Import Validate EqvSoundDec DecRepeat.
 Open Scope list_scope.
 
 Definition dec_view (P : prog) := map (fun '(k, ir) => (k, (ir_members ir, ir_dec ir))) P.
@@ -31,6 +31,7 @@ Proof.
     assert (He : forall s ms r, dec_elem (sem_dec P fuel) s ms r = dec_elem (sem_dec Q fuel) s ms r).
     { clear - IH. intros s. induction s as [w le|n p|pw ple sg|pw ple sg e IHe|ty|tb fw k ue|why]; intros ms r; cbn [dec_elem]; try reflexivity.
       - destruct (dec_int pw ple r) as [[n r']|]; [|reflexivity]. destruct (guard_skips sg pw n); [reflexivity|].
+        rewrite !dec_repeat_n_eq.
         rewrite (dec_repeat_ext (dec_elem (sem_dec P fuel) e ms) (dec_elem (sem_dec Q fuel) e ms)); [reflexivity|].
         intros r0. apply IHe.
       - apply IH.
